@@ -325,6 +325,8 @@ class TypeMap:
         return t
 
     def tag(self, ctype):
+        # LP64: size_t and unsigned long are one type; one tag, so that pair<size_t,..> and pair<unsigned long,..> coincide
+        ctype = re.sub(r"\bsize_t\b", "unsigned long", ctype)
         return ident(ctype.replace("struct ", "").replace("*", "P").replace(" ", "_"))
 
     def struct_tag(self, name):
